@@ -49,6 +49,23 @@ CLAIMED.update({
              '(no write before a parsing error), CSV anomaly files.',
         note='Trusted: Lean kernel + standard axioms; host exception texts are classified, not modelled; parsing errors detected from the query text are checked on the implementation directly (no parser model yet).',
         ref='DESIGN.md section 7, C14'),
+    'C03': dict(
+        text='C03_one_row_per_key_sorted (run = aggRowsSpec: one row per distinct key among passing records, ascending, TOP applied) by a bridge theorem for the aggregate branch of the main loop; every accumulator '
+             'proved equal to the mathematical aggregate of its group in input order (COUNT, SUM, MIN/MAX as true extrema, AVG, population VARIANCE = mean squared deviation, MEDIAN, ARRAY_AGG order, ANY_VALUE first), '
+             'non-constant column fails iff two distinct values incl. None, builtin dispatch decision table. Real engine tied on grouped numeric tables with exact rational comparison, plus a direct check of min/max/sum dispatch.',
+        note='Hypotheses: homogeneous numeric arguments (numeric strings of -?d+(.d+)? or numbers), comparable keys; IEEE rounding outside the model (values recovered as exact rationals).',
+        ref='DESIGN.md section 7, C03'),
+    'C15': dict(
+        text='C15_prefix_on_broken_pipe: a writer refusing at its k-th write has accepted exactly the first k-1 records of the full output, for every chain shape; C15_writer_protocol (finish once, no write after refusal), '
+             'C15_chain_is_one_feed; C15_fds_closed for EVERY fault point of the query_csv resource machine. Real code tied with a recording writer refusing at every k, a stream raising BrokenPipeError at every write, '
+             'an invalid byte at every position x chunk sizes, /proc/self/fd before/after 14 fault scenarios.',
+        note='Partial: OS pipe semantics, TextIOWrapper buffering and the GC are outside the model; the resource machine is a hand abstraction of query_csv tied by the descriptor check; the decode-error-to-IO-error clause is checked on the implementation only.',
+        ref='DESIGN.md section 7, C15'),
+    'C19': dict(
+        text='The reference semantics (Lean run) is proved equal to the specification layer for SELECT, aggregates and UPDATE (C19_reference_*); the REAL rbql-js engine is tied to it through a node batch driver on language-neutral '
+             'queries rendered in JS syntax (rows, error class/record/field, pulled records, writer calls, warnings), with the caller arrays snapshotted before/after and output rows checked not to alias input rows.',
+        note='Partial by nature: the JS engine itself is not modelled; it is tied to a proved reference (translation-validation-like). Strings restricted to BMP; only expressions that mean the same in both languages.',
+        ref='DESIGN.md section 7, C19'),
     'C10': dict(
         text='Line level: C10_line_roundtrip_quoted (every good delimiter, single- or multi-character; no field condition for one-character delimiters), simple and monocolumn round trips; '
              'file level: C10_file_lines_roundtrip for LF/CRLF/CR; lossy output warns (C10_lossy_simple_warns, C10_none_sets_flag); C10_overlap_counterexample shows why multi-character '
